@@ -1,6 +1,32 @@
 /-
   C06 — tracked struct identities survive re-execution; dropped structs are discarded.
-  Model: `SalsaVerif/Model/Structs.lean`; helper lemmas: `SalsaVerif/Proofs/Structs.lean`.
+  Model: `SalsaVerif/Model/Structs.lean`; helper lemmas + invariants: `SalsaVerif/Proofs/Structs.lean`
+  (which also holds the tracked-struct lemmas `c07s_*` for C07).
+
+  Theorems (all fully proved, axioms: propext / Quot.sound / Classical.choice at most):
+    c06_disamb_order            disambiguators are 0,1,2,… per (ingredient, hash) in creation order
+    c06_distinct, c06_distinct_step
+                                invariant of every reachable multi-creator world: live handles ↔ live
+                                slots of the same generation, pairwise distinct slots (within and
+                                across creators), idmap injective, Live ∩ Free = ∅, free list
+                                duplicate-free, free ⇔ deleted (up to generation-exhausted leaks)
+    c06_dropped                 a struct that is not re-created is stale ⇒ deleted, memos cleared,
+                                on its ingredient's free list, not in the new memo
+    c06_delete_panics_iff       exact characterisation of the results of `delete_entity`
+    c06_same_id                 re-creation under the same identity returns the same (slot, gen)
+    c06_memos_kept              … and keeps generation, memo table, equal fields' revisions
+    c06_same_id_hyps_reachable  the consistency hypotheses of the two hold in every reachable state
+    c06_same_id_hyps_post       … and again after an execution; created ⊆ new memo
+    c06_same_id_rerun           two consecutive executions: k-th creation of a key ↦ same id
+    c06_world_exec              `runExecution` = the world's `begin; new…; finish` without interleaving
+
+  NOT YET PROVED: nothing of the C06 list is missing.  Scope limits of the MODEL (not modelled, hence
+  no theorem): (1) `seed_iteration` (fixpoint iterations mark the previous iteration's ids active and
+  pre-seed the disambiguator map); (2) the recursive `remove_outputs` cascade inside `clear_memos`
+  is approximated by the separate world op `discard` (sequential instead of nested order);
+  (3) free-slot choice is FIFO per ingredient (`SegQueue` single-threaded); no `choose` variant —
+  the invariants in `c06_distinct` do not depend on the order, `c06_same_id` never allocates;
+  (4) single-threaded: `updated_at` is modelled as a value protocol, not as an atomic.
 -/
 import SalsaVerif.Proofs.Structs
 
@@ -70,9 +96,12 @@ theorem c06_distinct (hash : Nat → Nat) (ops : List Op) (w : World)
     (∀ (q : Nat) a x y, w.ctxs[q]? = some (Ctx.idle a) → x ∈ a → y ∈ a → x.1 ≠ y.1 → x.2.idx ≠ y.2.idx) ∧
     FreeOK w.st ∧
     (freeIdxs w.st.free).Nodup ∧
-    (∀ c, c ∈ w.ctxs → ∀ id, id ∈ ctxIds c → id.idx ∉ freeIdxs w.st.free) := by
+    (∀ c, c ∈ w.ctxs → ∀ id, id ∈ ctxIds c → id.idx ∉ freeIdxs w.st.free) ∧
+    (∀ (k : Nat) (v : Slot), w.st.slots[k]? = some v → v.updatedAt = none →
+        (∃ g, (g, (⟨k, v.gen⟩ : Id)) ∈ w.st.free) ∨ GEN_MAX ≤ v.gen) := by
   have hI : WInv w := runOps_inv winv_empty h
-  refine ⟨hI.owns, hI.distinct, ?_, ?_, ?_, hI.freeOK, hI.freeNodup, ?_⟩
+  refine ⟨hI.owns, hI.distinct, ?_, ?_, ?_, hI.freeOK, hI.freeNodup, ?_,
+    runOps_deadOnFree winv_empty deadOnFree_empty h⟩
   · intro q1 q2 c1 c2 n h1 h2 hne hn
     exact winv_cross hI h1 h2 hne hn
   · intro q f e1 e2 hq he1 he2 hne hc
@@ -275,5 +304,109 @@ example :
     (runExecution (fun x => x % 10) 2 c06SamePrev c06SameCs c06SameState).toOption.map
         (fun out => out.state.slots.map (fun v => (v.memos, v.revs)))
       = some [([], [1, 2]), ([⟨41, 0⟩], [1]), ([⟨42, 0⟩], [2, 1])] := by decide
+
+/-- The consistency hypotheses of `c06_same_id` / `c06_memos_kept` hold in EVERY state reachable
+    from the empty world, for the memo of every idle creator (whatever other creators, reads, memo
+    insertions and discards happened in between). -/
+theorem c06_same_id_hyps_reachable (hash : Nat → Nat) (ops : List Op) (w : World)
+    (h : runOps hash World.empty ops = .ok w) (q : Nat) (prev : List (Identity × Id))
+    (hq : w.ctxs[q]? = some (Ctx.idle prev)) :
+    FreeOK w.st ∧ FreeNodup w.st ∧ (∀ x, x ∈ prev → Owns w.st x.2) ∧ (pairIdxs prev).Nodup ∧
+    (∀ x, x ∈ prev → HashAt hash w.st x) := by
+  have hI : WInv w := runOps_inv winv_empty h
+  have hH : WHash hash w := runOps_hash winv_empty (whash_empty hash) h
+  refine ⟨hI.freeOK, hI.freeNodup, ?_, ctx_nodup hI hq, ?_⟩
+  · intro x hx
+    exact ctx_owns hI hq x.2 (by simp only [ctxIds, List.mem_map]; exact ⟨x, hx, rfl⟩)
+  · intro x hx
+    exact hH _ (List.mem_of_getElem? hq) x hx
+
+/-- … and they hold again after an execution for the new memo (so executions can be chained);
+    moreover every struct created by the execution is in the new memo's id list under the identity
+    it was registered with, and the next execution's seeded identity map finds it. -/
+theorem c06_same_id_hyps_post (hash : Nat → Nat) (cur : Nat) (prev : List (Identity × Id))
+    (cs : List Creation) (s : State) (out : ExecOut)
+    (h : runExecution hash cur prev cs s = .ok out)
+    (hF : FreeOK s) (hN : FreeNodup s) (hown : ∀ x, x ∈ prev → Owns s x.2)
+    (hnd : (pairIdxs prev).Nodup) (hhash : ∀ x, x ∈ prev → HashAt hash s x) :
+    (FreeOK out.state ∧ FreeNodup out.state ∧ (∀ x, x ∈ out.active → Owns out.state x.2) ∧
+      (pairIdxs out.active).Nodup ∧ (∀ x, x ∈ out.active → HashAt hash out.state x)) ∧
+    (∀ x, x ∈ out.created → x ∈ out.active ∧
+      IdentityMap.find (Frame.seed out.active).idmap x.1 = some x.2) :=
+  ⟨runExecution_post h hF hN hown hnd hhash, (runExecution_created_active h hF hN hown hnd).2⟩
+
+/-- Two consecutive executions of the creator (the literal reading of C06): the second execution
+    is seeded from the first one's id list, in the state the first one left.  If the `j2`-th
+    creation of the second execution has the same (ingredient, identity hash) as the `j1`-th of
+    the first and both are the `k`-th creation of that key in their execution, the generation is
+    not exhausted, and the identity value stored in the slot does not collide with the new one,
+    then it gets the same identity AND the same (slot, generation). -/
+theorem c06_same_id_rerun (hash : Nat → Nat) (cur1 cur2 : Nat) (prev : List (Identity × Id))
+    (cs1 cs2 : List Creation) (s : State) (out1 out2 : ExecOut)
+    (h1 : runExecution hash cur1 prev cs1 s = .ok out1)
+    (h2 : runExecution hash cur2 out1.active cs2 out1.state = .ok out2)
+    (hF : FreeOK s) (hN : FreeNodup s) (hown : ∀ x, x ∈ prev → Owns s x.2)
+    (hnd : (pairIdxs prev).Nodup) (hhash : ∀ x, x ∈ prev → HashAt hash s x)
+    (j1 j2 : Nat) (c1 c2 : Creation) (hc1 : cs1[j1]? = some c1) (hc2 : cs2[j2]? = some c2)
+    (hkey : keyOf hash c1 = keyOf hash c2)
+    (hcount : countKey hash (keyOf hash c1) (cs1.take j1)
+      = countKey hash (keyOf hash c2) (cs2.take j2))
+    (I : Identity) (id : Id) (hcr : out1.created[j1]? = some (I, id)) (hgen : id.gen < GEN_MAX)
+    (hinj : ∀ v, out1.state.slots[id.idx]? = some v →
+      hash v.fields.idv = hash c2.fields.idv → v.fields.idv = c2.fields.idv) :
+    out2.created[j2]? = some (I, id) := by
+  obtain ⟨⟨pF, pN, pown, pnd, phash⟩, pcr⟩ := c06_same_id_hyps_post hash cur1 prev cs1 s out1 h1
+    hF hN hown hnd hhash
+  obtain ⟨hmem, hfind⟩ := pcr (I, id) (List.mem_of_getElem? hcr)
+  obtain ⟨_, hdis⟩ := c06_disamb_order hash cur1 prev cs1 s out1 h1
+  obtain ⟨id', hid'⟩ := hdis j1 c1 hc1
+  rw [hcr] at hid'
+  simp only [Option.some.injEq, Prod.mk.injEq] at hid'
+  obtain ⟨hI, _⟩ := hid'
+  have hkey' : c1.ingr = c2.ingr ∧ hash c1.fields.idv = hash c2.fields.idv := by
+    simpa [keyOf] using hkey
+  have hI2 : I = ⟨c2.ingr, hash c2.fields.idv,
+      countKey hash (keyOf hash c2) (cs2.take j2)⟩ := by
+    rw [hI, hkey'.1, hkey'.2, hcount]
+  obtain ⟨v, hv, hlive, _⟩ := pown (I, id) hmem
+  obtain ⟨r, hr⟩ := Option.ne_none_iff_exists'.mp hlive
+  have := c06_same_id hash cur2 out1.active cs2 out1.state out2 h2 pF pN pown pnd phash j2 c2 id
+    v r hc2 (hI2 ▸ hfind) hv hr (Or.inr hgen) (hinj v hv)
+  rw [this.1, hI2]
+
+/-- non-vacuity for `c06_same_id_rerun` (and `c06_same_id_hyps_post`): first execution from the
+    empty state creates idv 1, 11, 2 (1 and 11 collide), the second creates 2, 1, 11 in another
+    interleaving: creation 1 of the first (idv 11, 2nd of key (7,1)) and creation 2 of the second
+    get the same identity and id, and the slot stores the same identity value 11. -/
+def c06RerunCs1 : List Creation := [⟨1, 1, 7, ⟨1, [5]⟩⟩, ⟨1, 1, 7, ⟨11, [6]⟩⟩, ⟨1, 1, 7, ⟨2, []⟩⟩]
+def c06RerunCs2 : List Creation := [⟨1, 2, 7, ⟨2, []⟩⟩, ⟨1, 2, 7, ⟨1, [5]⟩⟩, ⟨1, 2, 7, ⟨11, [9]⟩⟩]
+
+example :
+    keyOf (fun x => x % 10) ⟨1, 1, 7, ⟨11, [6]⟩⟩ = keyOf (fun x => x % 10) ⟨1, 2, 7, ⟨11, [9]⟩⟩ ∧
+    countKey (fun x => x % 10) (7, 1) (c06RerunCs1.take 1)
+      = countKey (fun x => x % 10) (7, 1) (c06RerunCs2.take 2) ∧
+    ((runExecution (fun x => x % 10) 1 [] c06RerunCs1 State.empty).toOption.bind fun o1 =>
+      (runExecution (fun x => x % 10) 2 o1.active c06RerunCs2 o1.state).toOption.map fun o2 =>
+        (o1.created[1]?, o2.created[2]?, (o1.state.slots[1]?).map (fun v => v.fields.idv)))
+      = some (some (⟨7, 1, 1⟩, ⟨1, 0⟩), some (⟨7, 1, 1⟩, ⟨1, 0⟩), some 11) := by decide
+
+/-! ### link between the two levels -/
+
+/-- `runExecution` is exactly the world's `begin q; new q …; finish q` run without interleaving, so
+    the `runExecution` theorems above apply to every execution of the op language that is not
+    interleaved with other ops, and (by `c06_same_id_hyps_reachable`) from every reachable state. -/
+theorem c06_world_exec (hash : Nat → Nat) (cur q : Nat) (prev : List (Identity × Id))
+    (cs : List Creation) (w : World) (out : ExecOut)
+    (hq : w.ctxs[q]? = some (Ctx.idle prev))
+    (h : runExecution hash cur prev cs w.st = .ok out) :
+    runOps hash w (Op.begin q :: (cs.map (newOp q cur) ++ [Op.finish q cur]))
+      = .ok ⟨out.state, w.ctxs.set q (Ctx.idle out.active)⟩ := world_exec hq h
+
+example :
+    (runOps (fun x => x % 10) ⟨State.empty, [Ctx.idle []]⟩
+        (Op.begin 0 :: (c06RerunCs1.map (newOp 0 1) ++ [Op.finish 0 1]))).toOption.map
+        (fun w => w.ctxs)
+      = (runExecution (fun x => x % 10) 1 [] c06RerunCs1 State.empty).toOption.map
+        (fun o => [Ctx.idle o.active]) := by decide
 
 end SalsaVerif.Props.C06
